@@ -37,6 +37,10 @@ CHECKS = {
    text="Ordered.tla (Evtx machine: insert under (time, index), pop first) is checked by TLC against the declarative sort for all small multisets with ties and all windows; on the code the printed EventRecordID sequence must equal the sort of an independent dump (evtx crate) for no window and for windows exactly on / 1 microsecond around actual record times, for the plain file and its compressed forms; Print traces are validated against TraceS4Run.tla.",
    note="One non-empty .evtx file exists offline (227 records, one inversion, no ties): ties are decided by the model only.",
    technique="TLA+ model checking (TLC) + differential replay against an independent dump + trace validation"),
+ "C09": dict(engine="Ordered", category="model_checking", design_ref="DESIGN.md §6 C09",
+   text="Ordered.tla (Journal machine: seek to first t >= A, next() until the first entry beyond B, with the upper-bound mode measured on the real reader) is checked by TLC against the declarative inclusive window for all monotone sequences with ties and all bounds; on the code, for every one of the ten renderings, the Print events (entry instants in order) must equal `journalctl --file -o json` restricted to the window, with bounds before / exactly on / 1 microsecond around actual entry times and A = B, for plain and compressed journals and several --tz-offset values; `cat` output is compared byte-wise and `export` field-wise (binary-safe) with journalctl.",
+   note="journalctl/libsystemd of the sandbox is the independent reader; rendering fidelity (export/cat) is differential testing, the model decides order and window only; _BOOT_ID header field of newer journalctl not required.",
+   technique="TLA+ model checking (TLC) + differential replay against journalctl"),
 }
 NA_REASON = "check not built yet in this session (work in progress; will be claimed when its machinery exists)"
 
